@@ -243,6 +243,126 @@ fn block_ref_check(n: usize, kl: [usize; 3], vl: [usize; 3], interval: usize, se
     std::mem::forget(bw);
 }
 
+// ------------------------------------------------------------------------------------------------ grenad 0.4.7
+#[path = "g047/mod.rs"]
+pub(crate) mod g047;
+
+/// C09 differential: the current BlockWriter and the frozen 0.4.7 BlockWriter emit identical bytes for the same entries.
+fn d047_block_check(n: usize, kl: [usize; 3], vl: [usize; 3], interval: usize) {
+    assert!(g047::AVAILABLE, "grenad 0.4.7 sources not found in the cargo registry");
+    // (entries as an array of structs: slices of a local `[[u8; 2]; 3]` obtained from kani::any() do not alias the
+    //  array they are taken from under Kani 0.68 - observed, see DESIGN.md §9.3)
+    let mut es = [BEnt { klen: 0, k: [0; 2], vlen: 0, v: [0; 8] }; 3];
+    let mut i = 0;
+    while i < 3 {
+        es[i] = BEnt { klen: kl[i], k: kani::any(), vlen: vl[i], v: kani::any() };
+        if i > 0 && i < n {
+            kani::assume(lex_gt(&es[i].k[..kl[i]], &es[i - 1].k[..kl[i - 1]]));
+        }
+        i += 1;
+    }
+    let mut nb = BlockWriter::builder();
+    nb.index_key_interval(NonZeroUsize::new(interval).unwrap());
+    let mut new = nb.build();
+    let mut ob = g047::block_writer::BlockWriter::builder();
+    ob.index_key_interval(NonZeroUsize::new(interval).unwrap());
+    let mut old = ob.build();
+    let mut i = 0;
+    while i < 3 {
+        if i < n {
+            new.insert(&es[i].k[..kl[i]], &es[i].v[..vl[i]]);
+            old.insert(&es[i].k[..kl[i]], &es[i].v[..vl[i]]);
+            assert!(new.current_size_estimate() == old.current_size_estimate());
+        }
+        i += 1;
+    }
+    {
+        let nbuf = new.finish();
+        let obuf = old.finish();
+        let (a, b): (&[u8], &[u8]) = (nbuf.as_ref(), obuf.as_ref());
+        assert!(a.len() == b.len(), "C09: block length differs from grenad 0.4.7");
+        let p: usize = kani::any();
+        kani::assume(p < a.len());
+        assert!(a[p] == b[p], "C09: block bytes differ from grenad 0.4.7");
+        kani::cover!(p + 1 == a.len());
+        kani::cover!(p == 0);
+    }
+    std::mem::forget(new);
+    std::mem::forget(old);
+}
+
+/// C09 differential: trailer bytes and trailer parsing agree with grenad 0.4.7 in both directions (V2 and V1).
+#[kani::proof]
+#[kani::unwind(24)]
+fn c09_d047_trailer() {
+    use crate::metadata as cur;
+    use g047::metadata as old;
+    let offset: u64 = kani::any();
+    let count: u64 = kani::any();
+    let levels: u8 = kani::any();
+    let codec: u8 = kani::any();
+    kani::assume(codec <= 5);
+    let v2: bool = kani::any();
+    let ct = match crate::compression::CompressionType::from_u8(codec) {
+        Some(c) => c,
+        None => return,
+    };
+    let mc = cur::Metadata {
+        file_version: if v2 { cur::FileVersion::FormatV2 } else { cur::FileVersion::FormatV1 },
+        index_block_offset: offset,
+        compression_type: ct,
+        entries_count: count,
+        index_levels: if v2 { levels } else { 0 },
+    };
+    let mo = old::Metadata {
+        file_version: if v2 { old::FileVersion::FormatV2 } else { old::FileVersion::FormatV1 },
+        index_block_offset: offset,
+        compression_type: ct,
+        entries_count: count,
+        index_levels: if v2 { levels } else { 0 },
+    };
+    let mut a = [0u8; 22];
+    let mut b = [0u8; 22];
+    let na = {
+        let mut s: &mut [u8] = &mut a[..];
+        match mc.write_into(&mut s) {
+            Ok(n) => n,
+            Err(e) => {
+                std::mem::forget(e);
+                return;
+            }
+        }
+    };
+    let nb = {
+        let mut s: &mut [u8] = &mut b[..];
+        match mo.write_into(&mut s) {
+            Ok(n) => n,
+            Err(e) => {
+                std::mem::forget(e);
+                return;
+            }
+        }
+    };
+    assert!(na == nb && a == b, "C09: trailer bytes differ from grenad 0.4.7");
+    // each version parses the other's trailer to the same fields
+    match old::Metadata::read_from(std::io::Cursor::new(&a[..na])) {
+        Ok(m) => assert!(m.index_block_offset == offset && m.entries_count == count && m.index_levels == mc.index_levels && m.compression_type == ct),
+        Err(e) => {
+            std::mem::forget(e);
+            panic!("C09: grenad 0.4.7 rejects the current writer's trailer");
+        }
+    }
+    match cur::Metadata::read_from(std::io::Cursor::new(&b[..nb])) {
+        Ok(m) => assert!(m.index_block_offset == offset && m.entries_count == count && m.index_levels == mo.index_levels && m.compression_type == ct),
+        Err(e) => {
+            std::mem::forget(e);
+            panic!("C09: the current reader rejects grenad 0.4.7's trailer");
+        }
+    }
+    kani::cover!(v2 && levels == 255);
+    kani::cover!(!v2 && codec == 5);
+}
+
 include!("block_writer_gen.rs");
 
 /// C18: the second insert panics iff its key is not strictly greater than the first (lengths symbolic 0..=2).
@@ -297,3 +417,4 @@ fn c18_block_order_after_reset() {
     kani::cover!(k2[0] < k1[0]);
     std::mem::forget(bw);
 }
+
